@@ -23,6 +23,7 @@ import (
 	"encoding/binary"
 	"fmt"
 	"hash/crc32"
+	"runtime/debug"
 	"testing"
 
 	"github.com/whatap/golib/util/hash"
@@ -32,7 +33,12 @@ import (
 	"verif/pbt"
 )
 
-func TestMain(m *testing.M) { pbt.Main(m, "C15") }
+func TestMain(m *testing.M) {
+	// the 2^32 address sweep allocates a few short strings per address on a tiny live heap; a larger GC
+	// target only reduces the number of collections (harness-side setting, no effect on what is checked)
+	debug.SetGCPercent(2000)
+	pbt.Main(m, "C15")
+}
 
 func TestReplay(t *testing.T) { pbt.Replay(t) }
 
